@@ -238,7 +238,10 @@ func ExecSched(sc sim.Script) *sim.Outcome {
 				continue
 			}
 			// must-hit: every block from start down to the writer had its commit return before the lookup was invoked
-			must := true
+			// ... and nothing can have been given up for capacity: the ancestor links are kept in a table of 2000
+			// and a walk gives up after 2000 links (the property's "unless evicted for capacity"); runs with
+			// more blocks than that only have their hits judged
+			must := len(w.m.blocks) <= 1900
 			for x := start; ; {
 				at, done := committedAt[x]
 				if !done || at >= r.inv {
